@@ -198,6 +198,9 @@ def run_once(cfg, sa, sb, n=14, decoys=False, record=False, fresh_model=True, cl
             dex2 = build("sage", "geom", "river-shared")      # another explainer on the very same model object
             for x, y in stream(9, 97):
                 dex2.explain_one(x, y)
+            dex3 = build("pfi", "uniform", "product")         # and one of every incremental kind, with per-call budgets, on other data
+            for t, (x, y) in enumerate(stream(11, 96)):
+                dex3.explain_one({k: 1000.0 * v + 7 for k, v in x.items()}, 50.0 * y, **({"n_inner_samples": 1 + t % 3} if t % 2 else {}))
             MultiValueTracker(WelfordTracker()).update({"q": 1.0})
             from ixai.utils.wrappers import RiverWrapper
             dw = RiverWrapper(lambda x: "label-only-the-decoy-emits" if x["a"] > 0 else "another-decoy-label")
@@ -211,12 +214,18 @@ def run_once(cfg, sa, sb, n=14, decoys=False, record=False, fresh_model=True, cl
         if ctx:
             ctx.__enter__()
         try:
+            # a bystander created AFTER seeding and never used: a storage left at its default (no seed of its own) must not touch the
+            # global generators the run is seeded through
+            from ixai.storage import TreeStorage as _TS
+            bystander = _TS(cat_feature_names=["b"], num_feature_names=["a", "c"])
             ex = build(*cfg)
             outs = []
-            for x, y in stream(n, 7):
+            for t, (x, y) in enumerate(stream(n, 7)):
                 kw = {"verbose": False} if kind in ("batch", "interval", "batch-original") else {}
                 if kind == "batch-original":
                     kw["original_sage"] = True
+                if kind in ("pfi", "sage", "sage-static") and t % 5 == 3:
+                    kw["n_inner_samples"] = 1 if t % 10 == 3 else 3     # a per-call budget below / above the configured one
                 r = ex.explain_one(x, y, **kw)
                 outs.append(sorted((repr(k), repr(float(v))) for k, v in r.items()))
         finally:
